@@ -60,13 +60,27 @@ def setArgsE (as : List Expr) : Expr → Option Expr
   | .nenv n _ b p => some (.nenv n as b p)
   | _ => none
 
+/-- The holder addressed by `st` (the node itself for `body`, its `i`-th argument for `arg`)
+must support contents: `TexExpr.remove`/`insert` start with `_assert_supports_contents`, so a
+command that is not (or no longer, after a rename) called `item` refuses to give up or
+replace an element of its body (`TypeError`, nothing changed). -/
+def holderOK (e : Expr) : Step → Bool
+  | .body _ => e.supportsContents
+  | .arg i _ => match e.args[i]? with
+    | some a => a.supportsContents
+    | none => false
+
+/-- `editHolder`, guarded by `holderOK`. -/
+def editHolderG (e : Expr) (st : Step) (g : Nat → List Expr → Option (List Expr)) : Option Expr :=
+  if holderOK e st then editHolder e st g else none
+
 /-- One edit on the wrapped root. -/
 def applyEditE (r : Expr) : EditOp → Option Expr
   | .delete p => match splitLast p with
-    | some (q, st) => updAt r q (fun e => editHolder e st deleteAt)
+    | some (q, st) => updAt r q (fun e => editHolderG e st deleteAt)
     | none => none
   | .replace p ns => match splitLast p with
-    | some (q, st) => updAt r q (fun e => editHolder e st (replaceAt ns))
+    | some (q, st) => updAt r q (fun e => editHolderG e st (replaceAt ns))
     | none => none
   | .insert c i ns => updAt r c (fun e =>
       if e.supportsContents then some (e.setBody (insertAt i ns e.body)) else none)
